@@ -50,6 +50,33 @@ func main() {
 		os.Exit(1)
 	default:
 	}
+	// many distinct expressions (whatever the helper keeps per expression grows, is bounded or is evicted while others
+	// look up): 16 goroutines over 1200 expressions, each expression also used by a second goroutine
+	var mw sync.WaitGroup
+	for g := 0; g < 16; g++ {
+		mw.Add(1)
+		go func(g int) {
+			defer mw.Done()
+			for k := 0; k < 150; k++ {
+				for _, n := range []int{g*75 + k/2, ((g+1)%16)*75 + k/2} {
+					expr := fmt.Sprintf("value >= %d", n)
+					if vh.IsValidCEL(expr, n, nil) != true || vh.IsValidCEL(expr, n-1, nil) != false {
+						select {
+						case celBad <- expr:
+						default:
+						}
+					}
+				}
+			}
+		}(g)
+	}
+	mw.Wait()
+	select {
+	case b := <-celBad:
+		fmt.Println("inconsistent IsValidCEL (many expressions):", b)
+		os.Exit(1)
+	default:
+	}
 	var wg sync.WaitGroup
 	bad := make(chan string, 64)
 	for g := 0; g < 32; g++ {
